@@ -37,7 +37,8 @@ def _bounds(entry, cfg, tier):
     if entry == 'Gillespie_SIS':
         cfg['max_expo'] = e
     if entry == 'fast_SIS':
-        cfg['max_expo'] = 2 * e
+        # several initial infections multiply the event orderings: 8 exponential draws only from a single initial node
+        cfg['max_expo'] = 2 * e if len(cfg.get('I0') or [0]) <= 1 else 6
     if entry == 'fast_nonMarkov_SIS':
         cfg['max_infections'] = e
         cfg['delays_per_pair'] = 1
